@@ -4,7 +4,9 @@ import (
 	"encoding/json"
 	"errors"
 	"fmt"
+	"maps"
 	"regexp"
+	"slices"
 	"sort"
 	"strconv"
 	"strings"
@@ -722,7 +724,10 @@ func migrateRuleSet(lang i18n.Language, r RuleSet, validDests map[uuids.UUID]boo
 			return nil, "", nil, err
 		}
 		currencyAmounts := make(map[string]decimal.Decimal, len(countryConfigs))
-		for _, countryCfg := range countryConfigs {
+		// in country order so that the same problem is reported every time
+		for _, country := range slices.Sorted(maps.Keys(countryConfigs)) {
+			countryCfg := countryConfigs[country]
+
 			// the current reader doesn't allow amounts which are expensive to write out
 			if exp := countryCfg.Amount.Exponent(); exp < -100 || exp > 100 {
 				return nil, "", nil, fmt.Errorf("unable to migrate airtime ruleset with amount out of range")
